@@ -289,7 +289,27 @@ def _iface(k):
     return m
 
 
-MUTATORS = [_iface("arg-type"), _iface("arg-type"), _iface("type"), _iface("arg-missing"), _iface("extra-required"), m_empty_type, m_input_in_output, m_output_in_input, m_bad_default, m_iface, m_union, m_reserved, m_cycle, m_oneof,
+def m_redefined_directive(S, rnd):
+    """a directive that carries the name of a specified directive (the name is not reserved) and breaks a directive rule"""
+    import copy
+    d = copy.deepcopy(rnd.choice([x for x in gs.REDEFINED if x["args"]]))
+    outs = objs(S, ["OBJECT", "INTERFACE", "UNION"])
+    k = rnd.choice(["output-type", "reserved-arg", "bad-default"])
+    a = d["args"][0]
+    if k == "output-type" and outs:
+        a["type"] = ["N", rnd.choice(outs)["name"]]
+    elif k == "reserved-arg":
+        a["name"] = "__" + a["name"]
+    else:
+        a["type"] = ["N", "Boolean"]
+        a["hasDefault"], a["default"] = True, {"t": "s", "v": [ord(c) for c in "yes"]}
+    if any(x["name"] == d["name"] for x in S["directives"]):
+        return None
+    S["directives"].append(d)
+    return "redefined-specified-directive-invalid"
+
+
+MUTATORS = [m_redefined_directive, _iface("arg-type"), _iface("arg-type"), _iface("type"), _iface("arg-missing"), _iface("extra-required"), m_empty_type, m_input_in_output, m_output_in_input, m_bad_default, m_iface, m_union, m_reserved, m_cycle, m_oneof,
             m_deprecated_required, m_roots, m_implements]
 
 
